@@ -36,6 +36,10 @@ structure Occ where
   name : Nat
   role : Role
   scope : Nat
+  /-- position from which a lookup of this name starts: the first occurrence of the enclosing
+  assignment statement (`x = x`: the right-hand `x` is looked up from the statement start, so it
+  does not see the left-hand one), otherwise the occurrence itself -/
+  stmt : Nat
 deriving Repr
 
 structure Prog where
@@ -115,7 +119,7 @@ def goto (p : Prog) (u : Nat) : List Nat :=
   | none => []
   | some o =>
     if o.role.isDef then [u]
-    else gotoFrom p o.name (p.scopes.length + 1) o.scope (some u)
+    else gotoFrom p o.name (p.scopes.length + 1) o.scope (some o.stmt)
 
 /-! ## Python side -/
 
@@ -174,7 +178,7 @@ def varOf (p : Prog) (i : Nat) : Nat :=
   | none => 0
   | some o =>
     match o.role with
-    | .use => ownerOfUse p o.scope o.name i
+    | .use => ownerOfUse p o.scope o.name o.stmt
     | .globalDecl => 0
     | .nonlocalDecl => resolveFree p o.name p.scopes.length (p.parent o.scope)
     | _ => ownerOfBinding p o.scope o.name
